@@ -696,4 +696,105 @@ theorem ravel_lt_of_lex (ls a b : List Nat) (ha : inBounds ls a = true) (hb : in
         · have := ih xs ys ha.2 hb.2 h
           omega
 
+/-! ### `data_layout` and `from_memory_order` cannot panic -/
+
+/-- the names of a claimed linear order are all found in the shape (the `position_of(..).unwrap`
+    style lookups of `TensorRename::data_layout` and `map_linear_data_layout_to_transposed`
+    succeed) -/
+theorem View.order_positions (v : View ν α) (hw : v.WF) (order : List ν)
+    (hl : v.layout = .ok (.linear order)) : ∃ P, order.mapM (positionOf v.shape) = some P := by
+  obtain ⟨M, leaf, data, _, _, h3, h4, _⟩ := View.layout_lin v hw order hl
+  have hnod := (goodShape_iff.1 (View.correct v hw).1).1
+  refine ⟨M.map (·.pos), ?_⟩
+  have : order = (M.map (·.pos)).map (nameAt v.shape) := by rw [h4, List.map_map]; rfl
+  rw [this]
+  exact mapM_positionOf hnod _ (by
+    intro p hp
+    obtain ⟨m, hm, rfl⟩ := List.mem_map.1 hp
+    exact h3 m hm)
+
+/-- `TensorRef::data_layout` returns (never panics) on every well-formed view -/
+theorem View.layout_ok (v : View ν α) : v.WF → ∃ l, v.layout = .ok l := by
+  induction v using View.ind with
+  | tensor id t => intro _; exact ⟨_, rfl⟩
+  | matrix id m r c => intro _; exact ⟨_, rfl⟩
+  | matrixOf s r c ih =>
+    intro hw
+    obtain ⟨l, hl⟩ := ih (by simp only [View.WF] at hw; exact hw.1)
+    exact ⟨_, by simp only [View.layout, hl]; rfl⟩
+  | mrange s rows columns ih =>
+    intro hw
+    obtain ⟨l, hl⟩ := ih (by simp only [View.WF] at hw; exact hw.1)
+    exact ⟨_, by simp only [View.layout, hl]; rfl⟩
+  | mreverse s rows columns ih => intro _; exact ⟨_, rfl⟩
+  | tmap s ih =>
+    intro hw
+    simp only [View.WF] at hw
+    simpa only [View.layout] using ih hw
+  | range s rs ih => intro _; exact ⟨_, rfl⟩
+  | mask s ms ih => intro _; exact ⟨_, rfl⟩
+  | index s p ih => intro _; exact ⟨_, rfl⟩
+  | expansion s e ih => intro _; exact ⟨_, rfl⟩
+  | rename s ns ih =>
+    intro hw
+    have hs : s.WF := by simp only [View.WF] at hw; exact hw.1
+    obtain ⟨l, hl⟩ := ih hs
+    cases l with
+    | linear order =>
+      obtain ⟨P, hP⟩ := View.order_positions s hs order hl
+      exact ⟨_, by simp only [View.layout, hl, renameLayout, hP]; rfl⟩
+    | nonLinear => exact ⟨_, by simp only [View.layout, hl]; rfl⟩
+    | other => exact ⟨_, by simp only [View.layout, hl]; rfl⟩
+  | reverse s r ih => intro _; exact ⟨_, rfl⟩
+  | access s m ih =>
+    intro hw
+    simpa only [View.layout] using ih (by simp only [View.WF] at hw; exact hw.1)
+  | transpose s m ih =>
+    intro hw
+    have hs : s.WF := by simp only [View.WF] at hw; exact hw.1
+    obtain ⟨l, hl⟩ := ih hs
+    cases l with
+    | linear order =>
+      obtain ⟨P, hP⟩ := View.order_positions s hs order hl
+      exact ⟨_, by simp only [View.layout, hl, mapLinearDataLayoutToTransposed, hP]; rfl⟩
+    | nonLinear => exact ⟨_, by simp only [View.layout, hl]; rfl⟩
+    | other => exact ⟨_, by simp only [View.layout, hl]; rfl⟩
+  | stack ss along ih => intro _; exact ⟨_, rfl⟩
+  | chain ss along ih => intro _; exact ⟨_, rfl⟩
+
+/-- `TensorAccess::from_memory_order` returns (its `unwrap_or_else(|| panic!(..))` is never
+    reached): `None` exactly when the layout is not linear, else a well-formed access -/
+theorem View.fromMemoryOrder_ok (v : View ν α) (hw : v.WF) :
+    (∃ r, v.fromMemoryOrder = .ok r) ∧
+    (∀ a, v.fromMemoryOrder = .ok (some a) → a.WF ∧ ∃ order, v.layout = .ok (.linear order) ∧
+      mkAccess v order = some a) ∧
+    (v.fromMemoryOrder = .ok none ↔ ¬ ∃ order, v.layout = .ok (.linear order)) := by
+  obtain ⟨l, hl⟩ := View.layout_ok v hw
+  cases l with
+  | linear order =>
+    obtain ⟨m, hm⟩ := (View.layout_memory_order v hw order hl).1
+    have hacc : mkAccess v order = some (View.access v m) := by simp only [mkAccess, hm, Option.map_some]
+    have hfm : v.fromMemoryOrder = .ok (some (View.access v m)) := by
+      simp only [View.fromMemoryOrder, hl, hacc]
+    refine ⟨⟨_, hfm⟩, ?_, ?_⟩
+    · intro a ha
+      rw [hfm] at ha
+      simp only [Outcome.ok.injEq, Option.some.injEq] at ha
+      subst ha
+      exact ⟨mkAccess_wf hw hacc, order, hl, hacc⟩
+    · rw [hfm]
+      constructor
+      · intro h; simp at h
+      · intro h; exact absurd ⟨order, hl⟩ h
+  | nonLinear =>
+    have hfm : v.fromMemoryOrder = .ok none := by simp only [View.fromMemoryOrder, hl]
+    refine ⟨⟨_, hfm⟩, ?_, ?_⟩
+    · intro a ha; rw [hfm] at ha; simp at ha
+    · rw [hfm]; simp [hl]
+  | other =>
+    have hfm : v.fromMemoryOrder = .ok none := by simp only [View.fromMemoryOrder, hl]
+    refine ⟨⟨_, hfm⟩, ?_, ?_⟩
+    · intro a ha; rw [hfm] at ha; simp at ha
+    · rw [hfm]; simp [hl]
+
 end EasyMl
